@@ -34,9 +34,9 @@ def to_py_value(v, as_float=False):
     if isinstance(v, bool):
         return v
     if isinstance(v, int):
-        return float(v) if as_float else v
+        return float(v) if as_float and abs(v) < 2 ** 53 else v
     if isinstance(v, Fraction):
-        return (float(v) if as_float else int(v)) if v.denominator == 1 else float(v)
+        return (float(v) if as_float and abs(v) < 2 ** 53 else int(v)) if v.denominator == 1 else float(v)
     if isinstance(v, tuple):
         return v[1]
     return Struct(attributes={k: to_py_value(x, as_float) for k, x in v.items()})
@@ -376,7 +376,7 @@ class ImplRun:
     def _register_oracle(self):
         gen = self.oracle_gen
 
-        def access(name, ctx, gen=gen):
+        def access(name, ctx=None, gen=gen):        # "name only" is not how the scheduler may call it
             if gen != self.oracle_gen:
                 self.stale.append((gen, self.oracle_gen, name))
             return self.var(name, ctx)
